@@ -1,5 +1,5 @@
 (* C08 — property theorems only. Each is closed by [exact] of a lemma proved in C08/Proofs.v. *)
-From Coq Require Import List QArith Qminmax ZArith Arith.
+From Coq Require Import List QArith Qminmax Qround ZArith Arith.
 Import ListNotations.
 From AgileV Require Import C08.Model C08.Proofs.
 Local Open Scope Q_scope.
@@ -7,7 +7,7 @@ Local Open Scope Q_scope.
 (* ---------------------------------------------------------------- done masks the next observation *)
 (* A transition marked done has target = reward, whatever the target network says about the next observation. *)
 Theorem done_target_is_reward : forall r g d q, d == 1 -> bellman r g d q == r /\ bellman_ac r g d q == r.
-Proof. intros r g d q H. split; [exact (bellman_done r g d q H) | exact (bellman_ac_done r g d q H)]. Qed.
+Proof. exact done_target_is_reward_thm. Qed.
 Print Assumptions done_target_is_reward.
 
 (* DQN / double DQN, for ARBITRARY online and target networks and every batch: replacing the next
@@ -35,12 +35,24 @@ Theorem done_masks_next_rows : forall g double n rows rows' arows arows' lse,
   Forall2 drow_same_but_next rows rows' -> Forall2 arow_same_but_next arows arows' ->
   dqn_loss g double rows == dqn_loss g double rows' /\ cqn_loss g double rows lse == cqn_loss g double rows' lse /\
   ac_loss g n arows == ac_loss g n arows'.
-Proof.
-  intros g double n rows rows' arows arows' lse H H'.
-  exact (conj (dqn_done_masks_rows g double rows rows' H)
-              (conj (cqn_done_masks_rows g double rows rows' lse H) (ac_done_masks_rows g n arows arows' H'))).
-Qed.
+Proof. exact done_masks_next_rows_thm. Qed.
 Print Assumptions done_masks_next_rows.
+
+(* Rainbow (C51): for a done transition the element-wise cross-entropy depends on the next observation's
+   target distribution only through its total mass (which is 1 for every softmax output): any other
+   next observation gives the same loss. *)
+Theorem done_masks_next_rainbow : forall g vmin vmax dz support x x',
+  r_d x == 1 -> r_r x = r_r x' -> r_d x = r_d x' -> r_logp x = r_logp x' ->
+  length (r_p x) = length support -> length (r_p x') = length support -> qsum (r_p x) == qsum (r_p x') ->
+  rb_elem g vmin vmax dz support x == rb_elem g vmin vmax dz support x'.
+Proof. exact rb_elem_done_masks. Qed.
+Print Assumptions done_masks_next_rainbow.
+
+(* ... because every cell of the projected distribution is (total mass) x (a weight that depends on the reward only) *)
+Theorem rainbow_done_projection : forall g vmin vmax dz r d support p k, d == 1 -> length p = length support ->
+  nth k (rb_project g vmin vmax dz r d support p) 0 == qsum p * rb_contrib g vmin vmax dz (length support) r d (0, 1) k.
+Proof. exact rb_project_done_cells. Qed.
+Print Assumptions rainbow_done_projection.
 
 (* ---------------------------------------------------------------- the loss is the defining expression *)
 (* DQN: mean over the batch of (Q(s,a) - (r + gamma (1 - d) V(s')))^2 ... *)
@@ -80,7 +92,7 @@ Theorem loss_is_definition_actor_critic : forall g rows,
   ac_loss g 1 rows == mse (map (fun x => nthq (a_qs x) 0) rows) (map (ac_y g) rows) /\
   ac_loss g 2 rows == mse (map (fun x => nthq (a_qs x) 0) rows) (map (ac_y g) rows)
                     + mse (map (fun x => nthq (a_qs x) 1) rows) (map (ac_y g) rows).
-Proof. intros g rows. exact (conj (ac_loss_one g rows) (ac_loss_two g rows)). Qed.
+Proof. exact loss_is_definition_actor_critic_thm. Qed.
 Print Assumptions loss_is_definition_actor_critic.
 
 Theorem target_uses_min_of_target_critics : forall g x, a_qns x <> [] ->
@@ -112,20 +124,19 @@ Print Assumptions soft_update_spec.
 Theorem soft_update_tracks : forall tau e t,
   lerp tau e t - e == (1 - tau) * (t - e) /\
   (0 <= tau -> tau <= 1 -> Qmin e t <= lerp tau e t /\ lerp tau e t <= Qmax e t) /\ lerp 1 e t == e.
-Proof. intros tau e t. exact (conj (lerp_contracts tau e t) (conj (lerp_between tau e t) (lerp_tau_one e t))). Qed.
+Proof. exact soft_update_tracks_thm. Qed.
 Print Assumptions soft_update_tracks.
 
-(* k consecutive learn steps (no delay): every cell follows the k-fold recurrence, whose closed form is
-   (1 - tau)^k * t0 + tau * sum_j (1 - tau)^(k-j) * online_j *)
-Theorem soft_update_k_fold : forall tau onlines c target i t,
+(* k consecutive learn calls, any policy delay: every target cell follows the recurrence over the calls that
+   update (all of them when policy_freq = 1), whose closed form over those m calls is
+   (1 - tau)^m * t0 + tau * sum_j (1 - tau)^(m-j) * online_j *)
+Theorem soft_update_k_fold : forall tau pf onlines c target i t,
   nth_error target i = Some t -> Forall (fun e => (i < length e)%nat) onlines ->
-  nth_error (run_soft tau 1 c target onlines) i = Some (cell_run tau t (map (fun e => nth i e 0) onlines)) /\
-  cell_run tau t (map (fun e => nth i e 0) onlines)
-    == qpow (1 - tau) (length onlines) * t + wsum tau (map (fun e => nth i e 0) onlines).
-Proof.
-  intros tau onlines c target i t H1 H2. split; [exact (run_soft_pf1_cell tau onlines c target i t H1 H2)|].
-  rewrite <- (map_length (fun e => nth i e 0) onlines). exact (cell_run_closed tau _ t).
-Qed.
+  let es := map (fun e => nth i e 0) (select_updates pf c onlines) in
+  nth_error (run_soft tau pf c target onlines) i = Some (cell_run tau t es) /\
+  cell_run tau t es == qpow (1 - tau) (length es) * t + wsum tau es /\
+  select_updates 1 c onlines = onlines.
+Proof. exact soft_update_k_fold_thm. Qed.
 Print Assumptions soft_update_k_fold.
 
 (* policy delay: over any number of learn calls the targets are soft-updated exactly at the calls whose
@@ -135,12 +146,7 @@ Theorem soft_update_policy_delay : forall tau pf onlines c target,
   ((0 < pf)%nat -> length (select_updates pf c onlines) = ((c + length onlines) / pf - c / pf)%nat) /\
   (forall online, (S c mod pf <> 0)%nat -> delayed_soft tau pf c online target = (S c, target)) /\
   (forall online, (S c mod pf = 0)%nat -> delayed_soft tau pf c online target = (S c, soft_zip tau online target)).
-Proof.
-  intros tau pf onlines c target.
-  exact (conj (run_soft_delay tau pf onlines c target)
-          (conj (select_updates_length pf onlines c)
-            (conj (fun o => delayed_soft_no_update tau pf c o target) (fun o => delayed_soft_update tau pf c o target)))).
-Qed.
+Proof. exact soft_update_policy_delay_thm. Qed.
 Print Assumptions soft_update_policy_delay.
 
 (* the pinned (pre-fix) DQN: a target whose tensors are not parameters never moves, even with tau = 1 *)
@@ -148,7 +154,7 @@ Theorem soft_update_vacuous_refuted :
   (forall tau online w, weights (soft_update tau online (pinned_dqn_target w)) = w) /\
   exists online w, length (weights online) = length w /\
     ~ Forall2 Qeq (weights (soft_update 1 online (pinned_dqn_target w))) (weights online).
-Proof. exact (conj pinned_target_never_moves soft_update_vacuous_refuted_lemma). Qed.
+Proof. exact soft_update_vacuous_refuted_thm. Qed.
 Print Assumptions soft_update_vacuous_refuted.
 
 (* ---------------------------------------------------------------- non-vacuity *)
